@@ -246,9 +246,9 @@ def check_cli(system, shapes_n):
     src = os.path.join(scratch(), 'c10.export')
     with open(src, 'w', encoding='utf-8') as f:
         f.write(codecs.encode_export(mts))
-    for use_pos in (False, True):
+    for use_pos, topnode in ((False, False), (True, False), (False, True)):
         dest = os.path.join(scratch(), 'c10.%s.%d.trans' % (system, use_pos))
-        argv = ['transitions', src, dest, system, '--transform', 'negra_mark_heads']
+        argv = ['transitions', src, dest, system, '--transform', 'negra_mark_heads'] + (['add_topnode'] if topnode else [])
         if use_pos:
             argv += ['--dest-opts', 'pos']
         st, so, se, exc = cli.run(argv)
@@ -276,7 +276,10 @@ def check_cli(system, shapes_n):
                 bad('sentence', 'line has %r, expected %r' % (sent, exp_sent))
             try:
                 rebuilt = fn(m.n(), seq.split(' '))
-                if rebuilt != expected(m, with_heads):
+                want = expected(m, with_heads)
+                if topnode:
+                    want = ('TOP', (want,), None)
+                if rebuilt != want:
                     bad('replay-mismatch', 'tree %s: %s' % (model.mt_str(m.root, m.toks), seq))
             except ReplayError as e:
                 bad('replay-stuck', 'tree %s: %s (%s)' % (model.mt_str(m.root, m.toks), seq, e))
